@@ -80,8 +80,8 @@ add('c07-phase-endpoint', S, "    phases = np.linspace(0, (2*np.pi), nphases+1)[
     'breaking', ['C07'], 'C07.R2')
 add('c07-phase-endpoint-false-benign', S, "    phases = np.linspace(0, (2*np.pi), nphases+1)[:nphases]",
     "    phases = np.linspace(0, (2*np.pi), nphases, endpoint=False)", 'benign', ['C07'])
-add('c07-unordered', S, "        res = p.starmap(my_get_next_imf, args)", "        res = list(p.imap_unordered(my_get_next_imf, [a[0] for a in args]))",
-    'breaking', ['C07'], 'C07')
+add('c07-unordered-benign', S, "        res = p.starmap(my_get_next_imf, args)", "        res = list(p.imap_unordered(my_get_next_imf, [a[0] for a in args]))",
+    'benign', ['C07'])
 add('c07-ladder-exponent', S, "mask_freqs = np.array([z/mask_step_factor**ii for ii in range(max_imfs)])",
     "mask_freqs = np.array([z/mask_step_factor**(ii+1) for ii in range(max_imfs)])", 'breaking', ['C07'], 'C07.R2')
 add('c07-ladder-linear', S, "mask_freqs = np.array([z/mask_step_factor**ii for ii in range(max_imfs)])",
@@ -152,3 +152,135 @@ add('c09-amp-normalised', SP, "        analytic_signal = signal.hilbert(imf, axi
 add('c09-normalise-by-other-column', UT, "                X[:, iimf, jimf] = X[:, iimf, jimf] / env\n", "                X[:, iimf, jimf] = X[:, 0, jimf] / env\n", 'breaking', ['C09'], 'C09.R3')
 add('c09-method-fallthrough', SP, "    elif method == 'quad':\n        logger.info('Using Quadrature transform')\n\n        analytic_signal = quadrature_transform(imf)\n",
     "    elif method == 'quad':\n        logger.info('Using Quadrature transform')\n", 'breaking', ['C09'], 'C09.R4')
+
+# ---------------------------------------------------------------- C03
+add('c03-sift-cap-offbyone', S, "        if max_imfs is not None and layer == max_imfs:\n            logger.info('Finishing sift: reached max number of imfs ({0})'.format(layer))",
+    "        if max_imfs is not None and layer == max_imfs + 1:\n            logger.info('Finishing sift: reached max number of imfs ({0})'.format(layer))", 'breaking', ['C03'], 'C03.R3')
+add('c03-sift-cap-not-enforced', S, "            logger.info('Finishing sift: reached max number of imfs ({0})'.format(layer))\n            continue_sift = False",
+    "            logger.info('Finishing sift: reached max number of imfs ({0})'.format(layer))", 'breaking', ['C03', 'C01'], 'R3')
+add('c03-mask-cap-offbyone', S, "        if max_imfs is not None and imf_layer == max_imfs-1:", "        if max_imfs is not None and imf_layer == max_imfs:", 'breaking', ['C03'], 'C03.R3')
+add('c03-ceemd-cap-before-increment', S, "        imf = np.concatenate((imf, next_imf), axis=1)\n        layer += 1\n\n        args = [(noise[:, ii, None], sift_thresh, 1, None, imf_opts, envelope_opts, extrema_opts)",
+    "        imf = np.concatenate((imf, next_imf), axis=1)\n\n        args = [(noise[:, ii, None], sift_thresh, 1, None, imf_opts, envelope_opts, extrema_opts)", 'breaking', ['C03'], 'C03.R3')
+add('c03-ceemd-no-entry-guard', S, "    layer += 1\n    if max_imfs is not None and layer == max_imfs:\n        continue_sift = False\n\n    while continue_sift:",
+    "    layer += 1\n\n    while continue_sift:", 'breaking', ['C03'], 'C03.R3')
+add('c03-cap-as-value', S, "        next_imf, continue_sift = get_next_imf(proto_imf,\n                                               envelope_opts=envelope_opts,",
+    "        next_imf, continue_sift = get_next_imf(proto_imf, max_iters=max_imfs,\n                                               envelope_opts=envelope_opts,", 'breaking', ['C03'], 'C03.R2')
+add('c03-mask-resid-from-proto', S, "        proto_imf = X - imf.sum(axis=1)[:, None]\n\n        if max_imfs is not None and imf_layer == max_imfs-1:",
+    "        proto_imf = X - next_imf\n\n        if max_imfs is not None and imf_layer == max_imfs-1:", 'breaking', ['C03'], 'C03.R1')
+add('c03-ceemd-resid', S, "    while continue_sift:\n\n        proto_imf = X - imf.sum(axis=1)[:, None]\n\n        args = [(proto_imf, None, noise[:, ii, None], noise_mode, sift_thresh,",
+    "    while continue_sift:\n\n        proto_imf = X - imf[:, -1, None]\n\n        args = [(proto_imf, None, noise[:, ii, None], noise_mode, sift_thresh,", 'breaking', ['C03'], 'C03.R1')
+add('c03-ensemble-first-member', S, "    nimfs = min(r.shape[1] for r in res)\n    if max_imfs is None or max_imfs > nimfs:\n        max_imfs = nimfs",
+    "    if max_imfs is None:\n        max_imfs = res[0].shape[1]", 'breaking', ['C03'], 'C03.R4')
+add('c03-second-layer-range', S, "    for ii in range(IA.shape[1]):\n        tmp = sift_func(IA[:, ii], **sift_args)", "    for ii in range(max_imfs):\n        tmp = sift_func(IA[:, ii], **sift_args)",
+    'breaking', ['C03'], 'C03.R5')
+add('c03-no-ensure', S, "    X = ensure_1d_with_singleton([X], ['X'], 'sift')\n\n    _nsamples_warn(X.shape[0], max_imfs)\n\n    continue_sift = True\n    layer = 0\n\n    proto_imf = X.copy()",
+    "    _nsamples_warn(X.shape[0], max_imfs)\n\n    continue_sift = True\n    layer = 0\n\n    proto_imf = X.copy()", 'breaking', ['C03', 'C19'], 'R')
+add('c03-layer-rename-benign', S, "    continue_sift = True\n    layer = 0\n\n    proto_imf = X.copy()\n\n    while continue_sift:\n\n        next_imf, continue_sift = get_next_imf(proto_imf,",
+    "    continue_sift = True\n    layer = 0\n\n    residual = X.copy()\n    proto_imf = residual\n\n    while continue_sift:\n\n        next_imf, continue_sift = get_next_imf(proto_imf,", 'benign', ['C03', 'C01'])
+
+# ---------------------------------------------------------------- C05
+add('c05-order2', S, "    ext_locs = signal.argrelextrema(X, np.greater, order=1)[0]", "    ext_locs = signal.argrelextrema(X, np.greater, order=2)[0]", 'breaking', ['C05'], 'C05.R1')
+add('c05-default-prominence', S, "def _find_extrema(X, peak_prom_thresh=None, parabolic_extrema=False):", "def _find_extrema(X, peak_prom_thresh=0.1, parabolic_extrema=False):",
+    'breaking', ['C05'], 'C05.R1')
+add('c05-grid-shift', S, "    t = np.arange(np.ceil(locs[0]), locs[-1])", "    t = np.arange(np.ceil(locs[0]) + 1, locs[-1] + 1)", 'breaking', ['C05'], 'C05.R4')
+add('c05-grid-unrounded', S, "    t = np.arange(np.ceil(locs[0]), locs[-1])", "    t = np.arange(locs[0], locs[-1])", 'breaking', ['C05'], 'C05.R4')
+add('c05-mask-offbyone', S, "    tinds = np.logical_and((t_max >= 0), (t_max < X.shape[0]))", "    tinds = np.logical_and((t_max > 0), (t_max <= X.shape[0]))", 'breaking', ['C05'], 'C05.R4')
+add('c05-pad-width-mismatch', S, "    ret_max_ext = np.pad(max_ext, pad_width, mag_pad_mode, **mag_pad_opts)\n\n    # Keep padding",
+    "    ret_max_ext = np.pad(max_ext, pad_width + 1, mag_pad_mode, **mag_pad_opts)[1:-1]\n\n    # Keep padding", 'breaking', ['C05'], 'C05.R3')
+add('c05-exit-test', S, "    while max(ret_max_locs) < len(X) or min(ret_max_locs) >= 0:", "    while max(ret_max_locs) < len(X) - 1 or min(ret_max_locs) >= 0:", 'breaking', ['C05'], 'C05.R3')
+add('c05-exit-test-and', S, "    while max(ret_max_locs) < len(X) or min(ret_max_locs) >= 0:", "    while max(ret_max_locs) < len(X) and min(ret_max_locs) >= 0:", 'breaking', ['C05'], 'C05.R3')
+add('c05-winv-constant', S, "    w_inv = np.array([[.5, -1, .5], [-5/2, 4, -3/2], [3, -3, 1]])", "    w_inv = np.array([[.5, -1, .5], [-5/2, 4, -3/2], [3, -3, 2]])", 'breaking', ['C05'], 'C05.R6')
+add('c05-vertex-offset', S, "    t = tp - 2 + locs", "    t = tp - 1 + locs", 'breaking', ['C05'], 'C05.R6')
+add('c05-pchip-from-other', S, "        pchip = interp.PchipInterpolator(locs, pks)\n        env = pchip(t)", "        pchip = interp.PchipInterpolator(locs[1:-1], pks[1:-1])\n        env = pchip(t)", 'breaking', ['C05'], 'C05.R5')
+add('c05-lower-uses-peaks', S, "    elif mode == 'lower':\n        locs, pks = get_padded_extrema(X, mode='troughs', **extrema_opts)", "    elif mode == 'lower':\n        locs, pks = get_padded_extrema(-X, mode='peaks', **extrema_opts)",
+    'breaking', ['C05'], 'C05.R5')
+add('c05-exit-test-benign', S, "    while max(ret_max_locs) < len(X) or min(ret_max_locs) >= 0:", "    while not (max(ret_max_locs) >= len(X) and min(ret_max_locs) < 0):", 'benign', ['C05', 'C02'])
+
+# ---------------------------------------------------------------- C06
+add('c06-drop-extrema-in-sift', S, "        next_imf, continue_sift = get_next_imf(proto_imf,\n                                               envelope_opts=envelope_opts,\n                                               extrema_opts=extrema_opts,\n                                               **imf_opts)",
+    "        next_imf, continue_sift = get_next_imf(proto_imf,\n                                               envelope_opts=envelope_opts,\n                                               **imf_opts)", 'breaking', ['C06'], 'C06.R1')
+add('c06-lower-envelope-no-opts', S, "        lower = interp_envelope(proto_imf, mode='lower',\n                                **envelope_opts, extrema_opts=extrema_opts)\n\n        # If upper",
+    "        lower = interp_envelope(proto_imf, mode='lower',\n                                **envelope_opts)\n\n        # If upper", 'breaking', ['C06', 'C04'], 'R1')
+add('c06-flip-half-no-opts', S, "        imf += sift(ensX, sift_thresh=sift_thresh, max_imfs=max_imfs,\n                    imf_opts=imf_opts, envelope_opts=envelope_opts, extrema_opts=extrema_opts)",
+    "        imf += sift(ensX, sift_thresh=sift_thresh, max_imfs=max_imfs,\n                    imf_opts=imf_opts, envelope_opts=envelope_opts)", 'breaking', ['C06', 'C08'], 'R')
+add('c06-tuple-reordered', S, "    args = [(X, noise_scaling, noise[:, ii, None], noise_mode, sift_thresh, max_imfs, ii,\n             imf_opts, envelope_opts, extrema_opts)",
+    "    args = [(X, noise_scaling, noise[:, ii, None], noise_mode, sift_thresh, max_imfs, ii,\n             imf_opts, extrema_opts, envelope_opts)", 'breaking', ['C06'], 'C06.R1')
+add('c06-default-replaced', S, "    if not imf_opts:\n        imf_opts = {'env_step_size': 1,\n                    'sd_thresh': .1}", "    if not imf_opts or 'stop_method' not in imf_opts:\n        imf_opts = {'env_step_size': 1,\n                    'sd_thresh': .1}",
+    'breaking', ['C06'], 'C06.R2')
+add('c06-default-literal-drift', S, "        imf_opts = {'env_step_size': 1,\n                    'sd_thresh': .1}", "        imf_opts = {'env_step_size': 1,\n                    'sd_thresh': .2}", 'breaking', ['C06'], 'C06.R2')
+add('c06-extrema-fallback-drift', S, "        extrema_opts = {'pad_width': 2,\n                        'loc_pad_opts': None,", "        extrema_opts = {'pad_width': 3,\n                        'loc_pad_opts': None,", 'breaking', ['C06', 'C18'], 'R')
+add('c06-mask-partial-order-benign', S, "    my_get_next_imf = functools.partial(get_next_imf, envelope_opts=envelope_opts,\n                                        extrema_opts=extrema_opts, **imf_opts)",
+    "    my_get_next_imf = functools.partial(get_next_imf, extrema_opts=extrema_opts,\n                                        envelope_opts=envelope_opts, **imf_opts)", 'benign', ['C06', 'C07'])
+add('c06-is-imf-drop', S, "        upper = interp_envelope(imf[:, ii], mode='upper',\n                                **envelope_opts, extrema_opts=extrema_opts)", "        upper = interp_envelope(imf[:, ii], mode='upper',\n                                **envelope_opts)",
+    'breaking', ['C06'], 'C06.R1')
+add('c06-config-ignore-list', S, "    envelope_opts = _get_function_opts(interp_envelope, ignore=['X', 'extrema_opts', 'mode', 'ret_extrema'])",
+    "    envelope_opts = _get_function_opts(interp_envelope, ignore=['X', 'extrema_opts', 'ret_extrema'])", 'breaking', ['C06', 'C18'], 'R')
+
+# ---------------------------------------------------------------- C08
+add('c08-worker-draws', S, "    noise = np.random.randn(X.shape[0], nensembles)\n    args = [(X, noise_scaling, noise[:, ii, None], noise_mode,", "    noise = np.random.randn(X.shape[0], nensembles)\n    args = [(X, noise_scaling, None, noise_mode,",
+    'breaking', ['C08'], 'C08.R1')
+add('c08-same-column', S, "    noise = np.random.randn(X.shape[0], nensembles)\n    args = [(X, noise_scaling, noise[:, ii, None], noise_mode,", "    noise = np.random.randn(X.shape[0], nensembles)\n    args = [(X, noise_scaling, noise[:, 0, None], noise_mode,",
+    'breaking', ['C08'], 'C08.R1')
+add('c08-flip-redraw', S, "    elif noise_mode == 'flip':\n        ensX = X.copy() - noise", "    elif noise_mode == 'flip':\n        noise = np.random.randn(*X.shape)\n        ensX = X.copy() - noise", 'breaking', ['C08'], 'C08.R2')
+add('c08-flip-no-half', S, "        return imf / 2", "        return imf", 'breaking', ['C08'], 'C08.R2')
+add('c08-flip-same-sign', S, "    elif noise_mode == 'flip':\n        ensX = X.copy() - noise", "    elif noise_mode == 'flip':\n        ensX = X.copy() + noise", 'breaking', ['C08'], 'C08.R2')
+add('c08-sum-members', S, "        imfs[:, ii] = np.array([r[:, ii] for r in res]).mean(axis=0)", "        imfs[:, ii] = np.array([r[:, ii] for r in res]).sum(axis=0)", 'breaking', ['C08'], 'C08.R2')
+add('c08-wrong-column', S, "        imfs[:, ii] = np.array([r[:, ii] for r in res]).mean(axis=0)", "        imfs[:, ii] = np.array([r[:, 0] for r in res]).mean(axis=0)", 'breaking', ['C08'], 'C08.R2')
+add('c08-noise-offset', S, "    noise_scaling = X.std() * ensemble_noise\n\n    p = mp.Pool(processes=nprocesses)\n\n    # Noise is generated here",
+    "    noise_scaling = X.std() * ensemble_noise + 1e-3\n\n    p = mp.Pool(processes=nprocesses)\n\n    # Noise is generated here", 'breaking', ['C08'], 'C08.R3')
+add('c08-ceemd-worker-draws', S, "        args = [(proto_imf, None, noise[:, ii, None], noise_mode, sift_thresh,", "        args = [(proto_imf, noise_scaling, None, noise_mode, sift_thresh,", 'breaking', ['C08'], 'C08.R1')
+add('c08-generator-benign', S, "    noise = np.random.randn(X.shape[0], nensembles)\n    args = [(X, noise_scaling, noise[:, ii, None], noise_mode,",
+    "    noise = np.random.standard_normal((X.shape[0], nensembles))\n    args = [(X, noise_scaling, noise[:, ii, None], noise_mode,", 'benign', ['C08', 'C06'])
+
+# ---------------------------------------------------------------- C10
+add('c10-clamp-below', SP, "    yinds = np.digitize(infr, freq_edges) - 1\n    xinds", "    yinds = np.digitize(infr, freq_edges) - 1\n    yinds[yinds < 0] = 0\n    xinds", 'breaking', ['C10'], 'C10.R1')
+add('c10-keep-last-edge', SP, "    goods = np.all(np.c_[coo_data[1][0] < len(freq_edges) - 1, (coo_data[1][0] >= 0)], axis=1)",
+    "    goods = np.all(np.c_[coo_data[1][0] <= len(freq_edges) - 1, (coo_data[1][0] >= 0)], axis=1)", 'breaking', ['C10'], 'C10')
+add('c10-no-shift', SP, "    yinds = np.digitize(infr, freq_edges) - 1\n    xinds", "    yinds = np.digitize(infr, freq_edges)\n    xinds", 'breaking', ['C10'], 'C10.R1')
+add('c10-energy-twice', SP, "    coo_data = (inam.reshape(-1), (yinds.reshape(-1), xinds.reshape(-1)))", "    coo_data = ((inam**2).reshape(-1), (yinds.reshape(-1), xinds.reshape(-1)))", 'breaking', ['C10'], 'C10.R3')
+add('c10-1d-loop-short', SP, "    for ii in range(1, len(freq_edges)):\n        for jj in range(infr.shape[1]):", "    for ii in range(1, len(freq_edges) - 1):\n        for jj in range(infr.shape[1]):", 'breaking', ['C10'], 'C10')
+add('c10-1d-row-shift', SP, "                specs[ii - 1, jj] = np.nansum(inam[finds[:, jj] == ii, jj])", "                specs[ii - 1, jj] = np.nansum(inam[finds[:, jj] == ii - 1, jj])", 'breaking', ['C10'], 'C10')
+add('c10-1d-ge-last', SP, "    outside_inds = (infr < freq_edges[0]) + (infr > freq_edges[-1])", "    outside_inds = (infr <= freq_edges[0]) + (infr > freq_edges[-1])", 'breaking', ['C10'], 'C10')
+add('c10-nbins-edges', SP, "        edges = np.linspace(data_min, data_max, nbins + 1)", "        edges = np.linspace(data_min, data_max, nbins)", 'breaking', ['C10'], 'C10.R4')
+add('c10-centres-left', SP, "    centres = np.array([(edges[ii] + edges[ii + 1]) / 2 for ii in range(len(edges) - 1)])", "    centres = np.array([edges[ii] for ii in range(len(edges) - 1)])", 'breaking', ['C10'], 'C10.R4')
+add('c10-time-shift', SP, "    xinds = np.tile(np.arange(yinds.shape[0]), (yinds.shape[1], 1)).T", "    xinds = np.tile(np.arange(yinds.shape[0]) + 1, (yinds.shape[1], 1)).T", 'breaking', ['C10'], 'C10.R1')
+add('c10-no-dimcheck', SP, "    ensure_equal_dims((infr, inam), ('infr', 'inam'), 'hilberthuang')\n", "", 'breaking', ['C10', 'C19'], 'R')
+add('c10-logical-and-benign', SP, "    goods = np.all(np.c_[coo_data[1][0] < len(freq_edges) - 1, (coo_data[1][0] >= 0)], axis=1)",
+    "    goods = np.logical_and(coo_data[1][0] < len(freq_edges) - 1, coo_data[1][0] >= 0)", 'benign', ['C10'])
+
+# ---------------------------------------------------------------- C11
+add('c11-fold-stride', SP, "    infr_inds = infr_inds + IA_inds * fold_dim1", "    infr_inds = infr_inds + IA_inds * fold_dim2", 'breaking', ['C11'], 'C11.R1')
+add('c11-fold-dim', SP, "    fold_dim1 = len(freq_edges) + 1", "    fold_dim1 = len(freq_edges)", 'breaking', ['C11'], 'C11.R1')
+add('c11-reshape-swapped', SP, "        holo = holo.sum(axis=0)\n        holo = holo.reshape(fold_dim2, fold_dim1)", "        holo = holo.sum(axis=0)\n        holo = holo.reshape(fold_dim1, fold_dim2)", 'breaking', ['C11'], 'C11.R1')
+add('c11-trim-one-margin', SP, "        holo = np.array(holo[1:-1, 1:-1])  # don't return a matrix", "        holo = np.array(holo[1:, 1:-1])  # don't return a matrix", 'breaking', ['C11'], 'C11.R1')
+add('c11-mean-is-sum', SP, "        holo = holo.mean(axis=0)\n        holo = holo.reshape(fold_dim2, fold_dim1)", "        holo = holo.sum(axis=0)\n        holo = holo.reshape(fold_dim2, fold_dim1)", 'breaking', ['C11'], 'C11.R2')
+add('c11-sum-axis1', SP, "        holo = holo.sum(axis=0)\n        holo = holo.reshape(fold_dim2, fold_dim1)", "        holo = holo.sum(axis=1)\n        holo = holo.reshape(fold_dim2, fold_dim1)", 'breaking', ['C11'], 'C11.R2')
+add('c11-energy-lost', SP, "    if mode == 'energy':\n        inam2 = inam2**2", "    if mode == 'energy':\n        inam2 = np.abs(inam2)", 'breaking', ['C11'], 'C11.R3')
+add('c11-dimcheck-dropped', SP, "    ensure_equal_dims((infr, infr2, inam2), ('infr', 'infr2', 'inam2'), 'holospectrum', dim=1)\n", "", 'breaking', ['C11'], 'C11.R3')
+add('c11-edges-swapped', SP, "    IA_inds = np.digitize(infr2, freq_edges2)\n    infr_inds = np.digitize(infr, freq_edges)", "    IA_inds = np.digitize(infr2, freq_edges)\n    infr_inds = np.digitize(infr, freq_edges2)", 'breaking', ['C11'], 'C11')
+
+# ---------------------------------------------------------------- C12
+add('c12-terminal-n-1', CY, "            inds = np.r_[inds, phase.shape[0]]", "            inds = np.r_[inds, phase.shape[0] - 1]", 'breaking', ['C12', 'C15'], 'C12.R1')
+add('c12-no-leading', CY, "        if inds[0] >= 1:\n            inds = np.r_[0, inds]", "        if inds[0] > 1:\n            inds = np.r_[0, inds]", 'breaking', ['C12'], 'C12.R1')
+add('c12-leading-one', CY, "        if inds[0] >= 1:\n            inds = np.r_[0, inds]", "        if inds[0] >= 1:\n            inds = np.r_[1, inds]", 'breaking', ['C12'], 'C12.R1')
+add('c12-wrap-position', CY, "        inds = np.where(np.abs(np.diff(phase[:, ii])) > phase_step)[0] + 1", "        inds = np.where(np.abs(np.diff(phase[:, ii])) > phase_step)[0]", 'breaking', ['C12'], 'C12')
+add('c12-wrap-ge', CY, "        inds = np.where(np.abs(np.diff(phase[:, ii])) > phase_step)[0] + 1", "        inds = np.where(np.abs(np.diff(phase[:, ii])) >= phase_step)[0] + 1", 'breaking', ['C12'], 'C12.R2')
+add('c12-signed-diff', CY, "        inds = np.where(np.abs(np.diff(phase[:, ii])) > phase_step)[0] + 1", "        inds = np.where(np.diff(phase[:, ii]) > phase_step)[0] + 1", 'breaking', ['C12'], 'C12')
+add('c12-counter-not-reset', CY, "        count = 0\n        for jj in range(len(inds) - 1):", "        for jj in range(len(inds) - 1):", 'breaking', ['C12'], 'C12')
+add('c12-label-from-one', CY, "        count = 0\n        for jj in range(len(inds) - 1):", "        count = 1\n        for jj in range(len(inds) - 1):", 'breaking', ['C12'], 'C12.R3')
+add('c12-skip-last-segment', CY, "        for jj in range(len(inds) - 1):\n\n            if mask is not None:", "        for jj in range(len(inds) - 2):\n\n            if mask is not None:", 'breaking', ['C12'], 'C12.R1')
+add('c12-fill-zero', CY, "    cycles = np.zeros_like(phase, dtype=int) - 1", "    cycles = np.zeros_like(phase, dtype=int)", 'breaking', ['C12'], 'C12.R3')
+add('c12-no-early-continue', CY, "        # No Cycles to be found\n        if len(inds) == 0:\n            continue\n", "", 'breaking', ['C12'], 'C12.R4')
+add('c12-append-benign', CY, "            inds = np.r_[inds, phase.shape[0]]", "            inds = np.append(inds, phase.shape[0])", 'benign', ['C12', 'C13', 'C15'])
+
+# ---------------------------------------------------------------- C13
+add('c13-strict-to-nonstrict', CY, "    if np.all(np.diff(phase) > 0):", "    if np.all(np.diff(phase) >= 0):", 'breaking', ['C13'], 'C13.R1')
+add('c13-start-edge-wrong-end', CY, "    if (phase[0] >= phase_min and phase[0] <= phase_min + phase_edge):", "    if (phase[0] >= phase_min and phase[-1] <= phase_min + phase_edge):", 'breaking', ['C13'], 'C13.R1')
+add('c13-end-edge-sign', CY, "    if (phase[- 1] <= 2 * np.pi) and (phase[- 1] >= 2 * np.pi - phase_edge):", "    if (phase[- 1] <= 2 * np.pi) and (phase[- 1] >= 2 * np.pi + phase_edge):", 'breaking', ['C13'], 'C13.R1')
+add('c13-any-checks', CY, "            if all(cycle_checks):", "            if any(cycle_checks):", 'breaking', ['C13'], 'C13.R2')
+add('c13-first-three-checks', CY, "            if all(cycle_checks):", "            if all(cycle_checks[:2]):", 'breaking', ['C13'], 'C13.R2')
+add('c13-mask-any-true', CY, "                if any(~mask[inds[jj]:inds[jj + 1]]):", "                if all(~mask[inds[jj]:inds[jj + 1]]):", 'breaking', ['C13'], 'C13.R2')
+add('c13-edge-not-forwarded', CY, "                cycle_checks = is_good(cycle_phase, ret_all_checks=True, phase_edge=phase_edge)", "                cycle_checks = is_good(cycle_phase, ret_all_checks=True)", 'breaking', ['C13'], 'C13.R2')
+add('c13-container-default-edge', CY, "                                  functools.partial(is_good, phase_edge=phase_edge), dtype=int)", "                                  is_good, dtype=int)", 'breaking', ['C13'], 'C13.R3')
+add('c13-mask-slice-shifted', CY, "                if any(~mask[inds[jj]:inds[jj + 1]]):", "                if any(~mask[inds[jj] + 1:inds[jj + 1]]):", 'breaking', ['C13'], 'C13.R2')
+add('c13-equiv-benign', CY, "    if (phase[0] >= phase_min and phase[0] <= phase_min + phase_edge):", "    if (phase_min <= phase[0] <= phase_min + phase_edge):", 'benign', ['C13'])
